@@ -1,10 +1,10 @@
 From Aelys Require Import Base.Tactics Extracted.AsiTokens Extracted.ParserSets Model.ExprStart.
 
-(* every kind that can begin an expression is listed by is_expression_start, except `~`
-   (open finding KF-C15-3): complete case analysis over the regenerated token alphabet *)
+(* every kind that can begin an expression is listed by is_expression_start: complete case
+   analysis over the regenerated token alphabet *)
 Lemma expr_start_complete_lemma : forall k,
-  can_begin_expression k = true -> k <> TTilde -> expr_start_listed k = true.
-Proof. intros k H N. destruct k; try reflexivity; try discriminate H. congruence. Qed.
+  can_begin_expression k = true -> expr_start_listed k = true.
+Proof. intros k H. destruct k; try reflexivity; discriminate H. Qed.
 
 Lemma paren_value_block_lemma :
   value_block_yields TLParen = ValueOfExpression
@@ -13,7 +13,17 @@ Proof.
   split; [reflexivity|]. intros k H. unfold value_block_yields. rewrite H. reflexivity.
 Qed.
 
-Lemma tilde_not_listed_lemma :
-  can_begin_expression TTilde = true /\ expr_start_listed TTilde = false
-  /\ value_block_yields TTilde = NullValue /\ value_block_yields TLParen = ValueOfExpression.
+(* whatever an expression begins with, its value block yields the expression's value, exactly
+   as when the expression is wrapped in redundant parentheses *)
+Lemma value_block_any_start_lemma : forall k,
+  can_begin_expression k = true -> value_block_yields k = value_block_yields TLParen.
+Proof.
+  intros k H. destruct paren_value_block_lemma as [_ P]. apply P. apply expr_start_complete_lemma. exact H.
+Qed.
+
+(* regression for the defect repaired by 3fa327d (`~` was missing from the list, so
+   `if c { ~x } else { y }` yielded null while `{ (~x) }` yielded the value) *)
+Lemma tilde_listed_lemma :
+  can_begin_expression TTilde = true /\ expr_start_listed TTilde = true
+  /\ value_block_yields TTilde = ValueOfExpression /\ value_block_yields TLParen = ValueOfExpression.
 Proof. repeat split; reflexivity. Qed.
